@@ -408,6 +408,8 @@ def _eval_own(model, zkind, rec, own, existing, missing):
                                              '(the result may be optional where that side requires it)' % where))
                         out.append(('conc', '%s: the consumed parameter of the other side is not conciled '
                                             '(default/annotation rules are bypassed)' % where))
+                        out.append(('exact', '%s: the other side still has a positional-or-keyword parameter at this position; the exact outcome is '
+                                             'this parameter conciled with it (it stays unconsumed and meets the next parameter instead)' % where))
                 else:
                     if not v:
                         out.append(('sound', '%s: stored although the %s input accepts no positional argument here' % (where, oth)))
